@@ -39,6 +39,18 @@ Definition check_life (prop : Z) (inp impl : sx) : sx :=
             && (if h_opened h then Nat.eqb (length handles) 1 else Nat.eqb (length handles) 0) in
           if agree then verdict V_OK cls [] (L []) else verdict V_DIVERGE cls [] (L [A (match r with LOk => 0 | LErr true => 1 | LErr false => 2 end)])
       end
+  (* the caller's context ends while the run is under way: the run may or may not honour it (the serial engine's drivers
+     finish their hop first), but what it returns is an error XOR a result, and every handle is closed once with no operation
+     of the run still executing on it *)
+  | L [A 29; A variant; A tcancel], L [A status; A _; A res_nil; L handles; A fd_leak] =>
+      let cls := 3 + 4 * variant + 32 * Z.min 7 (tcancel / 50000000) in
+      let hs_ok := forallb (fun s => match s with L [A 1; A 1; A 0] => true | _ => false end) handles in
+      if negb (prop =? 10) then verdict V_OK cls [] (L [])
+      else if status =? 2 then verdict V_SPECFAIL cls [10; 9] (L [])
+      else if negb (fd_leak =? 0) then verdict V_SPECFAIL cls [10; 7] (L [])
+      else if negb hs_ok then verdict V_SPECFAIL cls [10; 1] (L [])
+      else if negb (Bool.eqb (status =? 1) (res_nil =? 1)) then verdict V_SPECFAIL cls [10; 3] (L [])
+      else if Nat.eqb (length handles) 1 then verdict V_OK cls [] (L []) else verdict V_DIVERGE cls [] (L [])
   | L [A 16; A serial; A k; A dur; A dd], L [A status; A kept; A res_nil] =>
       (* the k-th SendProbe fails after [dur] in flight; the destination answers TTL 1 after [dd] *)
       let reached := if serial =? 0 then (k =? 1) || ((k - 1) * 10000000 <? dd)
